@@ -237,10 +237,7 @@ Representable(fr, v) == /\ fr.kind # "n"
                         /\ ~(fr.nz /\ v = 0)
 \* what a decoder reads back for a representable operand value
 FieldValue(fr, v) == IF fr.kind = "p" THEN ToPattern(v, fr.bits) ELSE v
-\* the boundary product of DESIGN section 5 (C10), widened by the alignment neighbours
-Boundary(fr) == LET lo == FMin(fr)  hi == FMax(fr)  a == fr.align  top == P2(fr.bits) IN
-    {lo - a, lo - 1, lo, lo + 1, lo + a, -a, -1, 0, 1, a, hi - a, hi - 1, hi, hi + 1, hi + a,
-     top - a, top - 1, top, top + a, P2(fr.bits - 1), P2(fr.bits - 1) - 1, P2(fr.bits - 1) + a, 2 * top - a, -top}
+\* (the labelled boundary product of C10 is enumerated from these definitions in RV32_Gen.tla)
 
 -----------------------------------------------------------------------------
 (* Encode: the inverse of Decode, built from the same field tables.  Used by *)
